@@ -54,6 +54,26 @@ def cap_tables(path=CAP_LEAN):
     return sens, benign, exempt, spawners, caps
 
 
+def _mode_relevant(path=CAP_LEAN):
+    m = re.search(r'abbrev modeRelevant : Nat := ([\d |]+)', open(path).read())
+    if not m:
+        raise ExtractError("Cap.lean: modeRelevant not found")
+    v = 0
+    for x in m.group(1).split("|||"):
+        v |= int(x)
+    return v
+
+
+def need_open(md):
+    acc = md & 3
+    out = []
+    if acc in (0, 2, 3):
+        out.append(64)
+    if acc in (1, 2, 3) or md & 64 or md & 512:
+        out.append(32)
+    return out
+
+
 def _benign_ordered(path=CAP_LEAN):
     src = open(path).read()
     m = re.search(r'^def benign\b[^\n]*:=\s*\[(.*?)^\s*$', src, re.S | re.M)
@@ -319,6 +339,8 @@ def extract(build, ir_text=None):
     M.slice = [n for n in mod.order if n in R]
     # ---- nodes
     fn_ids = {n: k for k, n in enumerate(M.slice)}
+    M.mode_relevant = _mode_relevant()
+    M.mode_tracked, M.mode_untracked = [], []
     nodes = []            # (fn id, op tuple, succ node ids)   op: ('nop',) ('assert',m) ('libc',fn,name) ('call',g) ('havoc',why) ('ret',)
     entry_of = {}
     M.node_src = []       # parallel: (function, block label, text)
@@ -326,9 +348,12 @@ def extract(build, ir_text=None):
         f = fdefs[name]
         first = {}
         chains = []
+        mode_ev = _mode_track(M, f)
         for b in f.blocks:
             evs = []
             for i in b.insts:
+                if id(i) in mode_ev:
+                    evs.append((mode_ev[id(i)], i.text))
                 evs += _events(M, name, i, fn_ids, fdefs)
             if b.term == "ret":
                 evs.append((("ret",), "ret"))
@@ -359,6 +384,92 @@ def extract(build, ir_text=None):
             cfun_names.setdefault(c, []).append(jn)
     M.cfun_names = cfun_names
     return M
+
+
+OPEN_FLAGS_ARG = {"open": 1, "open64": 1, "openat": 2, "openat64": 2}
+
+
+def _mode_track(M, f):
+    """open(2) flags tracking for one function: {id(instruction): ('modeSet', c) | ('modeOr', c)} (events emitted just
+    BEFORE that instruction's own events).  The flags argument of every open-like call must be a constant or the load of one
+    i32 alloca that is only ever assigned constants and `x | constant`; otherwise the call is preceded by modeSet 3
+    ("unknown": Cap.needOpen then requires both capabilities)."""
+    REL = M.mode_relevant
+    out = {}
+    sites = []
+    for b in f.blocks:
+        for k, i in enumerate(b.insts):
+            if i.kind == "call" and i.callee in OPEN_FLAGS_ARG:
+                sites.append((b, k, i))
+    if not sites:
+        return out
+    allocas = set()
+    site_var = {}
+    for b, k, i in sites:
+        ai = OPEN_FLAGS_ARG[i.callee]
+        if ai >= len(i.args):
+            out[id(i)] = ("modeSet", 3)
+            continue
+        c = i.const_args[ai]
+        if c is not None:
+            out[id(i)] = ("modeSet", c & REL)
+            continue
+        val = i.args[ai][1]
+        d = [x.text for x in b.insts[:k] if x.text.startswith(val + " = ")]
+        m = re.match(r'%[\w.]+ = load i32, i32\* (%[\w.]+),', d[-1]) if d else None
+        if not m:
+            out[id(i)] = ("modeSet", 3)
+            continue
+        site_var[id(i)] = m.group(1)
+        allocas.add(m.group(1))
+    if not allocas:
+        return out
+    ok = len(allocas) == 1
+    var = sorted(allocas)[0]
+    evs = {}
+    if ok:
+        pat = re.compile(r'(?<![\w.])' + re.escape(var) + r'(?![\w.])')
+        for b in f.blocks:
+            defs = {}
+            for i in b.insts:
+                t = i.text
+                if " = " in t:
+                    defs[t.split(" = ")[0]] = t
+                if not pat.search(t):
+                    continue
+                if re.match(re.escape(var) + r' = alloca i32\b', t) or re.match(r'%[\w.]+ = load i32, i32\* ' + re.escape(var) + r',', t):
+                    continue
+                ms = re.match(r'store i32 (\S+), i32\* ' + re.escape(var) + r',', t)
+                if not ms:
+                    ok = False
+                    break
+                v = ms.group(1)
+                if re.match(r'^-?\d+$', v):
+                    evs[id(i)] = ("modeSet", int(v) & REL)
+                    continue
+                dv = defs.get(v, "")
+                if re.match(r'%[\w.]+ = load i32, i32\* ' + re.escape(var) + r',', dv):
+                    continue                                    # x |= 0 (clang folds the or away)
+                mo = re.match(r'%[\w.]+ = or i32 (\S+), (\S+)$', dv)
+                if mo:
+                    a, c2 = mo.groups()
+                    if re.match(r'^-?\d+$', a):
+                        a, c2 = c2, a
+                    if re.match(r'^-?\d+$', c2) and re.match(r'%[\w.]+ = load i32, i32\* ' + re.escape(var) + r',', defs.get(a, "")):
+                        evs[id(i)] = ("modeOr", int(c2) & REL)
+                        continue
+                ok = False
+                break
+            if not ok:
+                break
+    if ok:
+        out.update(evs)
+        M.mode_tracked.append((f.name, var))
+    else:
+        for sid in site_var:
+            out[sid] = ("modeSet", 3)
+        M.mode_untracked.append(f.name)
+    return out
 
 
 def _events(M, fname, i, fn_ids, fdefs):
@@ -431,64 +542,65 @@ def certify(M):
             if pure[fn] and (op[0] == "havoc" or (op[0] == "call" and not pure[op[1]])):
                 pure[fn] = False
                 changed = True
-    K = [None] * len(nodes)
+    K = [dict() for _ in nodes]       # node -> {mode: knowledge}   (one case per mode; joins of equal modes are met)
     fpre = [None] * nf
     post = [None] * nf
     for n in M.entry_fns:
         fpre[M.fn_ids[n]] = frozenset()
-    work = True
+    state = {"work": True}
+
+    def add(n, mode, kn):
+        old = K[n].get(mode)
+        nk = _meet(old, kn)
+        if nk != old:
+            K[n][mode] = nk
+            state["work"] = True
     rounds = 0
-    while work:
-        work = False
+    while state["work"]:
+        state["work"] = False
         rounds += 1
-        if rounds > 200:
+        if rounds > 300:
             raise ExtractError("certificate analysis does not converge")
         for f in range(nf):
             if fpre[f] is not None:
-                e = M.entries_of[f]
-                nk = _meet(K[e], fpre[f])
-                if nk != K[e]:
-                    K[e] = nk
-                    work = True
+                add(M.entries_of[f], 0, fpre[f])
         for n, (fn, op, succ) in enumerate(nodes):
-            k = K[n]
-            if k is None:
-                continue
-            if op[0] == "assert":
-                out = _minimise(list(k) + _bits(op[1]))
-            elif op[0] == "havoc":
-                out = frozenset()
-            elif op[0] == "call":
-                g = op[1]
-                np_ = _meet(fpre[g], k)
-                if np_ != fpre[g]:
-                    fpre[g] = np_
-                    work = True
-                if post[g] is None:
+            for mode, k in list(K[n].items()):
+                om = mode
+                if op[0] == "assert":
+                    out = _minimise(list(k) + _bits(op[1]))
+                elif op[0] == "havoc":
+                    out = frozenset()
+                elif op[0] == "modeSet":
+                    out, om = k, op[1]
+                elif op[0] == "modeOr":
+                    out, om = k, mode | op[1]
+                elif op[0] == "call":
+                    g = op[1]
+                    np_ = _meet(fpre[g], k)
+                    if np_ != fpre[g]:
+                        fpre[g] = np_
+                        state["work"] = True
+                    if post[g] is None:
+                        continue
+                    out = _minimise((list(k) if pure[g] else []) + list(post[g]))
+                elif op[0] == "ret":
+                    np_ = _meet(post[fn], k)
+                    if np_ != post[fn]:
+                        post[fn] = np_
+                        state["work"] = True
                     continue
-                out = _minimise((list(k) if pure[g] else []) + list(post[g]))
-            elif op[0] == "ret":
-                np_ = _meet(post[fn], k)
-                if np_ != post[fn]:
-                    post[fn] = np_
-                    work = True
-                continue
-            else:
-                out = k
-            for s in succ:
-                nk = _meet(K[s], out)
-                if nk != K[s]:
-                    K[s] = nk
-                    work = True
+                else:
+                    out = k
+                for s in succ:
+                    add(s, om, out)
     C = Model()
-    # unreachable nodes / never-called functions: empty knowledge (always acceptable to the checker for the node itself)
-    # never-reached nodes / never-called functions / functions that never return: knowledge "false" = the group 0
-    # (a group G means "some capability of G is still enabled", which is false for G = 0), accepted vacuously
-    C.K = [sorted(k) if k is not None else [0] for k in K]
+    # never-reached nodes: no case.  Never-called functions / functions that never return: "false" = the group 0
+    C.K = [sorted((m, sorted(k)) for m, k in d.items()) for d in K]
     C.fpre = [sorted(k) if k is not None else [0] for k in fpre]
     C.post = [sorted(k) if k is not None else [0] for k in post]
     C.pure = pure
-    C.reached = [k is not None for k in K]
+    C.reached = [bool(d) for d in K]
     return C
 
 
@@ -497,10 +609,16 @@ def _imp(gp, ks):
     return any((g & gp) == g for g in ks)
 
 
-def need(M, fn, name):
+def need(M, fn, name, md=0):
     if (fn, name) in M.exempt:
         return []
+    if name in OPEN_FLAGS_ARG:
+        return need_open(md)
     return M.sens.get(name, [])
+
+
+def _cover(Ks, m, pred):
+    return any(cm == m and all(pred(g) for g in gs) for cm, gs in Ks)
 
 
 def check(M, C):
@@ -512,47 +630,45 @@ def check(M, C):
         e = M.entries_of[f]
         if nodes[e][0] != f:
             bad.append(dict(kind="entry-fn", fn=name))
-        if f in entry_ids and C.fpre[f]:
-            bad.append(dict(kind="entry-pre", fn=name))
-        if not all(_imp(g, C.fpre[f]) for g in C.K[e]):
+        if f in entry_ids and not _cover(C.K[e], 0, lambda g: False):
             bad.append(dict(kind="entry-K", fn=name))
     for n, (fn, op, succ) in enumerate(nodes):
-        k = C.K[n]
         name = M.slice[fn]
         for s in succ:
             if nodes[s][0] != fn:
                 bad.append(dict(kind="edge-fn", fn=name, node=n))
         if C.pure[fn] and (op[0] == "havoc" or (op[0] == "call" and not C.pure[op[1]])):
             bad.append(dict(kind="pure", fn=name, node=n))
-        if 0 in k:
-            continue          # "false" is known here: the node is unreachable, nothing to check
-        if op[0] in ("nop", "libc"):
-            for s in succ:
-                if not all(_imp(g, k) for g in C.K[s]):
-                    bad.append(dict(kind="edge", fn=name, node=n, to=s))
-        if op[0] == "assert":
-            for s in succ:
-                if not all((g & op[1]) != 0 or _imp(g, k) for g in C.K[s]):
-                    bad.append(dict(kind="edge", fn=name, node=n, to=s))
-        if op[0] == "havoc":
-            for s in succ:
-                if C.K[s]:
-                    bad.append(dict(kind="edge", fn=name, node=n, to=s))
-        if op[0] == "call":
-            g = op[1]
-            if not all(_imp(x, k) for x in C.fpre[g]):
-                bad.append(dict(kind="call-pre", fn=name, node=n, callee=M.slice[g]))
-            for s in succ:
-                if not all((C.pure[g] and _imp(x, k)) or _imp(x, C.post[g]) for x in C.K[s]):
-                    bad.append(dict(kind="edge", fn=name, node=n, to=s))
-        if op[0] == "ret":
-            if not all(_imp(x, k) for x in C.post[fn]):
-                bad.append(dict(kind="ret", fn=name, node=n))
-        if op[0] == "libc":
-            for r in need(M, op[1], op[2]):
-                if not _imp(r, k):
-                    bad.append(dict(kind="uncovered", fn=name, node=n, call=op[2], need=r, known=list(k),
-                                    reached=C.reached[n], src=M.node_src[n][2]))
+        for m, k in C.K[n]:
+            def edges(om, pred):
+                for s in succ:
+                    if not _cover(C.K[s], om, pred):
+                        bad.append(dict(kind="edge", fn=name, node=n, to=s, mode=m))
+            if op[0] in ("nop", "libc"):
+                edges(m, lambda g: _imp(g, k))
+            elif op[0] == "assert":
+                edges(m, lambda g: (g & op[1]) != 0 or _imp(g, k))
+            elif op[0] == "modeSet":
+                edges(op[1], lambda g: _imp(g, k))
+            elif op[0] == "modeOr":
+                edges(m | op[1], lambda g: _imp(g, k))
+            elif op[0] == "havoc":
+                edges(m, lambda g: False)
+            elif op[0] == "call":
+                g_ = op[1]
+                if not all(_imp(x, k) for x in C.fpre[g_]):
+                    bad.append(dict(kind="call-pre", fn=name, node=n, callee=M.slice[g_]))
+                if not _cover(C.K[M.entries_of[g_]], 0, lambda x: _imp(x, C.fpre[g_])):
+                    bad.append(dict(kind="call-entry", fn=name, node=n, callee=M.slice[g_]))
+                edges(m, lambda x: (C.pure[g_] and _imp(x, k)) or _imp(x, C.post[g_]))
+            elif op[0] == "ret":
+                if not all(_imp(x, k) for x in C.post[fn]):
+                    bad.append(dict(kind="ret", fn=name, node=n))
+            if op[0] == "libc":
+                for r in need(M, op[1], op[2], m):
+                    if not _imp(r, k):
+                        bad.append(dict(kind="uncovered", fn=name, node=n, call=op[2], need=r, known=list(k), mode=m,
+                                        reached=C.reached[n], src=M.node_src[n][2]))
     return bad
 
 
@@ -624,6 +740,10 @@ def render(M, C, origin="current tree"):
             return ".havoc"
         if t[0] == "ret":
             return ".ret"
+        if t[0] == "modeSet":
+            return "(.modeSet %d)" % t[1]
+        if t[0] == "modeOr":
+            return "(.modeOr %d)" % t[1]
         raise ValueError(t)
 
     def chunked(items):
@@ -632,8 +752,9 @@ def render(M, C, origin="current tree"):
     o.append("    " + ", ".join("%s=%d" % (n, e) for n, e in zip(M.slice, M.entries_of)) + " -/")
     o.append("abbrev nodeChunks : Array (Array Node) := " + chunked(["⟨%d, %s, %s⟩" % (fn, op(t), _lnat_list(succ)) for fn, t, succ in M.nodes]) + "\n")
     o.append("abbrev graph : Graph := ⟨%d, chunkGet nodeChunks ⟨0, .nop, []⟩, fun f => fnEntry.getD f 0, entryFns⟩\n" % len(M.nodes))
+    o.append("-- functions whose open(2) flags variable is tracked: %s; untracked (mode 3 = both capabilities required): %s" % (M.mode_tracked, M.mode_untracked))
     o.append("/-- UNTRUSTED certificate (checked by `certOK`) -/")
-    o.append("abbrev certK : Array (Array (List Nat)) := " + chunked([_lnat_list(k) for k in C.K]) + "\n")
+    o.append("abbrev certK : Array (Array (List Case)) := " + chunked(["[" + ", ".join("(%d, %s)" % (m, _lnat_list(k)) for m, k in cs) + "]" for cs in C.K]) + "\n")
     o.append("abbrev certPre : Array (List Nat) := #[" + ", ".join(_lnat_list(k) for k in C.fpre) + "]\n")
     o.append("abbrev certPost : Array (List Nat) := #[" + ", ".join(_lnat_list(k) for k in C.post) + "]\n")
     o.append("abbrev certPure : Array Bool := #[" + ", ".join("true" if p else "false" for p in C.pure) + "]\n")
